@@ -348,22 +348,33 @@ Section BlockTrees.
   Definition ex_all (p : list nat) : bool := true.
   Definition ex_root_only (p : list nat) : bool := match p with nil => true | _ => false end.
   Definition ex_below_root (p : list nat) : bool := match p with nil => false | _ => true end.
-  Definition ex_same_layouts (w : list nat -> bool) : bool :=
-    match ex_run ex_tree ex_input, ex_run (sk_map_where (BNode XQ) bn_to_border_box w ex_tree) ex_input with
-    | Some (o, t1), Some (o', t1') =>
-        list_eqb blay_eqb (lays (BNode XQ) (BIn XQ) (ChildOut XQ) (BLayout XQ) t1) (lays (BNode XQ) (BIn XQ) (ChildOut XQ) (BLayout XQ) t1')
-        && bout_eqb o o' && bsz_eqb (co_size o) (mkSize (qz 212) (qz 102))
-    | _, _ => false
-    end.
+  Definition ex_rewrite (w : list nat -> bool) (t : sk (BNode XQ)) : sk (BNode XQ) := sk_map_where (BNode XQ) bn_to_border_box w t.
   Example C12_block_engine_example :
-    sk_all (BNode XQ) bn_ok ex_tree /\
-    (let s := bn_style (sstyle (BNode XQ) (sk_map_where (BNode XQ) bn_to_border_box ex_root_only ex_tree)) in
+    sk_all (BNode XQ) bn_ok ex_tree /\ sk_all (BNode XQ) bn_ok ex_subtree /\
+    (let s := bn_style (sstyle (BNode XQ) (ex_rewrite ex_root_only ex_tree)) in
      st_content_box s = false /\ st_size s = mkSize (Len (Fin 212)) Auto) /\
-    ex_same_layouts ex_all = true /\ ex_same_layouts ex_root_only = true /\ ex_same_layouts ex_below_root = true.
+    ex_root_size ex_tree ex_input 212 102 = true /\
+    ex_same_ok ex_tree (ex_rewrite ex_all ex_tree) ex_input = true /\
+    ex_same_ok ex_tree (ex_rewrite ex_root_only ex_tree) ex_input = true /\
+    ex_same_ok ex_tree (ex_rewrite ex_below_root ex_tree) ex_input = true /\
+    (* the container B alone under max-content (content-based width through measuring queries), children rewritten *)
+    ex_root_size ex_subtree ex_input_max 60 44 = true /\
+    ex_same_ok ex_subtree (ex_rewrite ex_all ex_subtree) ex_input_max = true /\
+    ex_same_ok ex_subtree (ex_rewrite ex_below_root ex_subtree) ex_input_max = true.
   Proof.
-    split; [apply ex_all_ok|]. split; [vm_compute; split; reflexivity|]. split; [vm_compute; reflexivity|].
-    split; vm_compute; reflexivity.
+    split; [apply ex_all_ok|]. split; [apply ex_all_ok|]. split; [vm_compute; split; reflexivity|].
+    repeat split; vm_compute; reflexivity.
   Qed.
+
+  (* the same for ANY preprocessing and absolute-item routine satisfying the two premises *)
+  Theorem C12_block_engine_instance_parametric :
+    forall (pre : BStyle XQ -> BIn XQ -> BIn XQ) (abs_child : @AbsChild XQ),
+      PreRel 1 bb_rel pre -> AbsChildRel 1 bb_rel abs_child ->
+      forall f t t' i i',
+        trel (BNode XQ) (BIn XQ) (ChildOut XQ) (BLayout XQ) bnode_bb (bin_rel 1) (bout_rel 1) (blay_rel 1) t t' -> bin_rel 1 i i' ->
+        oprel (res_rel (BNode XQ) (BIn XQ) (ChildOut XQ) (BLayout XQ) bnode_bb (bin_rel 1) (bout_rel 1) (blay_rel 1))
+              (bl_memo pre abs_child f t i) (bl_memo pre abs_child f t' i').
+  Proof. exact block_engine_box_sizing. Qed.
 End BlockTrees.
 
 Print Assumptions C12_engine.
@@ -378,3 +389,4 @@ Print Assumptions C12_block_engine_box_sizing_blind.
 Print Assumptions C12_block_engine_instance.
 Print Assumptions C12_block_engine_rewritten_layouts.
 Print Assumptions C12_block_engine_example.
+Print Assumptions C12_block_engine_instance_parametric.
